@@ -161,7 +161,7 @@ def rule_branch_loop(ctx):
                     continue
                 if not q.in_body(st, loop.body):
                     if df.names_loaded(rhs) & varying:
-                        bad.append(f'{nm} (= {norm(rhs)[:50]}, line {st.lineno}, outside the level loop)')
+                        bad.append(f'{nm} (= {norm(rhs)[:50]}, line {int(round(st.lineno))}, outside the level loop)')
                 elif depth < 3:
                     bad += stale_names(rhs, depth + 1)
         return bad
@@ -437,7 +437,7 @@ def rule_cache_commit(ctx, rule='C12.CACHE'):
                                   and a.attr in ('length', 'level', 'truncations') for a in ast.walk(rhs))
                 if not q.in_body(st, lp_.body):
                     if reads_state:
-                        stale.append(f'{nm} = {norm(rhs)[:50]} (line {st.lineno})')
+                        stale.append(f'{nm} = {norm(rhs)[:50]} (line {int(round(st.lineno))})')
                 else:
                     work += sorted(df.names_loaded(rhs))
         ctx.check(not stale, rule, ctx.key(ext, lp_, 'retry re-derives from the cache state'),
@@ -576,7 +576,7 @@ def rule_init_first(ctx, rule='C12.INITFIRST'):
             early.append(st)
     ctx.check(not early, rule, ctx.key(f, waits[0], 'nothing read before initialisation'),
               'every read of the cache\'s fields (and every call of its helpers) comes after the wait for initialisation',
-              'the cache is consulted before initialize() may have run: ' + '; '.join(f'line {e.lineno} `{norm(e)[:50]}`' for e in early[:2]) +
+              'the cache is consulted before initialize() may have run: ' + '; '.join(f'line {int(round(e.lineno))} `{norm(e)[:50]}`' for e in early[:2]) +
               ' - computed with depth_higher == 0 / an empty level, then used after the wait', loc=ctx.loc(f, early[0] if early else f.node))
     return 1
 
@@ -630,7 +630,7 @@ def rule_stale_local(ctx, rule='C12.STALELOCAL'):
                         continue
                     alld = {cfg.node(s2) for s2, _r in sites}
                     if cfg.find_path([dn], {sp}, avoiding=alld - {dn}) is not None and cfg.find_path([sp], {m}, avoiding=alld) is not None:
-                        bad.append(f'`{name}` (line {st.lineno}: {norm(rhs)[:40]}) is used at line {a.lineno} after the suspension at line {cfg.ast(sp).lineno}')
+                        bad.append(f'`{name}` (line {int(round(st.lineno))}: {norm(rhs)[:40]}) is used at line {int(round(a.lineno))} after the suspension at line {cfg.ast(sp).lineno}')
                         break
     ctx.check(not bad, rule, ctx.key(f, None, 'cache-derived locals not carried across a suspension'),
               'every local computed from the cache is used before the next suspension point',
